@@ -194,6 +194,28 @@ def corr(ctx):
             ctx.disagree("filter_inventories", {"kind": "filter", "invs": invs, "q": q}, repr(r)[:500], repr(mo)[:500])
     if cases:
         ctx.sample({"filter": cases[0][1], "inventories": cases[0][0]})
+    # Sphinx in-memory representation: to_sphinx + filter_sphinx_inventories (arbitrary, also non-wf, inventories)
+    cases, lines = [], []
+    for i in range(ctx.budget(1500, 20000, 20000)):
+        invs = gen_inventories(rng, wf=(i % 2 == 0))
+        q = [rand_pat(rng) for _ in range(4)]
+        cases.append((invs, q))
+        lines.append("\t".join(["sfilter"] + [enc_ostr(x) for x in q] + enc_invs(invs)))
+    outs = model_run_parallel(PID, lines)
+    for (invs, q), o in zip(cases, outs):
+        try:
+            sph = {k: I.to_sphinx(inv) for k, inv in invs.items()}
+            r = [mt(m) for m in I.filter_sphinx_inventories(sph, invs=q[0], domains=q[1], otypes=q[2], targets=q[3])]
+        except Exception as e:
+            r = "!" + type(e).__name__
+        mo = dec_matches(o) if not o.startswith("!") else o
+        ctx.corr_cases += 1
+        ctx.count("sfilter:" + ("exc" if not isinstance(r, list) else "empty" if not r else "some"))
+        if isinstance(r, list) and r:
+            ctx.nontriv(("s", repr(invs), tuple(q)))
+        if r != mo:
+            ctx.disagree("filter_sphinx_inventories(to_sphinx)", {"kind": "filter", "invs": invs, "q": q, "wf": False},
+                         repr(r)[:500], repr(mo)[:500])
 
 
 # ------------------------------------------------------------------ direct property oracle
@@ -310,15 +332,29 @@ def gen_invlink_case(rng):
         seen.add((d, t, n))
         entries.append([d, t, n, rng.choice(["p.html#$", "q.html", "r/s.html#" + n.replace("*", "")]), rng.choice(["-", "Txt"])])
     links, parts = [], []
-    for _ in range(rng.randint(1, 4)):
-        pi = rng.choice([None, "k", "*", "z"])
-        pd = rng.choice([None, "py", "*", "s*"]) if pi is not None else None
-        po = rng.choice([None, "function", "*", "m*"]) if pd is not None else None
-        pt = rng.choice(names + ["*", "a*", "x\\*y", "zz", "*b*"])
+    # links of one document vary one coordinate at a time around a base quadruple, so that any state
+    # carried from one link to the next (caches, reused match lists) shows up
+    base = [rng.choice(["k", "*"]), rng.choice(["py", "*", "s*", "c"]), rng.choice(["function", "*", "m*", "module", "label"]),
+            rng.choice(names + ["*", "a*", "x\\*y", "zz", "*b*"])]
+    for _ in range(rng.randint(1, 5)):
+        q = list(base)
+        r = rng.random()
+        if r < 0.6:
+            i = rng.randrange(4)
+            q[i] = rng.choice([["k", "*", "z"], ["py", "*", "s*", "c", "std"], ["function", "*", "m*", "module", "label", "f*"],
+                               names + ["*", "a*", "x\\*y", "zz", "*b*"]][i])
+        elif r < 0.8:
+            cut = rng.randrange(3)      # omit trailing path parts: inv:#t, inv:k#t, inv:k:py#t
+            q = q[:cut] + [None] * (3 - cut) + [q[3]]
+        pi, pd, po, pt = q
         path = ":".join(x for x in (pi, pd, po) if x is not None)
+        if (pi is None and (pd is not None or po is not None)) or (pd is None and po is not None):
+            continue
         links.append([pi, pd, po, pt])
         txt = rng.choice(["", "text"])
         parts.append(f"[{txt}](<inv:{path}#{pt}>)")
+    if not links:
+        links.append([None, None, None, "a"]); parts.append("[](<inv:#a>)")
     return {"kind": "invlink", "entries": entries, "links": links, "text": "\n\n".join(parts) + "\n"}
 
 
@@ -341,7 +377,7 @@ def search(ctx):
         case = {"kind": "filter", "invs": gen_inventories(rng, wf=wf), "q": [rand_pat(rng) for _ in range(4)], "wf": wf}
         ctx.search_cases += 1
         check_case(ctx, case)
-    for i in range(ctx.budget(60, 600, 600)):
+    for i in range(ctx.budget(250, 2500, 2500)):
         case = gen_invlink_case(rng)
         ctx.search_cases += 1
         ctx.count("invlink")
@@ -362,8 +398,8 @@ def replay(ctx, data):
 LEVEL_TEXT = ("Proof (Coq): for every pattern and name, the compiled matcher of the model accepts exactly the documented "
               "wildcard language (C19_wildcard_correct, no premise); the nested filter loops equal filtering the flattened "
               "entry list on the four coordinates in inventory order (C19_filter_exact); inv-link outcome by match count "
-              "(C19_inv_link). The model is tied to inventory.py by differential correspondence (exhaustive short "
+              "(C19_inv_link); filtering the Sphinx in-memory representation of well-formed inventories gives the same entries in the same order (C19_native_equals_sphinx, with the refuted variant showing the premise is needed). The model is tied to inventory.py by differential correspondence (exhaustive short "
               "(pattern,name) pairs incl. regex metacharacters, generated inventories x filters) on every run.")
 LEVEL_NOTE = ("Trusted: Coq kernel; hand transcription of _create_regex/filter_inventories into coq/Inv/WildModel.v (checked by "
               "correspondence, not proved); Python re (re.escape/'.*'/DOTALL) as oracle; native-vs-Sphinx-representation equality and "
-              "the inv: link rendering are checked on the implementation by the search oracle only (not yet a theorem).")
+              "the inv: link rendering through docutils is checked on the implementation by the search oracle only.")
